@@ -6,6 +6,31 @@ props = [json.loads(l) for l in open(os.path.join(root, "properties.jsonl"))]
 
 # id -> (category, text, design_ref, note, technique)
 claimed = {
+ "C01": ("exploration",
+         "Property-based test against a three-valued reference model: inside every invocation of a generated route function the request is judged against that route's own declaration (method, full path template incl. regex, affix, verb, tail, Consumes, Produces, If-conditions) and every filter's view of the selected route is compared with the route that ran. Only a definite 'no' of the model alarms, so the check cannot raise an alarm inside what the statement leaves open. Tables and requests are generated to nearly admit (siblings, near-miss mutations). Sampling, not proof.",
+         "DESIGN.md §3.2, §5 C01",
+         "Trusts internal/model (written from the property text and the docs, unit-free of go-restful) and the recording harness. Curated pools of literals, regexes and media types.",
+         "property-based testing (rapid) with a reference model oracle"),
+ "C02": ("exploration",
+         "Property-based test against the staged reference rule of the statement: every generated request (hostile paths included) must not panic, must run at most one route function, and its (status, route, Allow set) must be a member of the set of outcomes the model admits; tracing on/off must agree. The model is set-valued only where the statement is silent, and the evidence reports the decisive fraction and the distribution over the eight outcome stages.",
+         "DESIGN.md §3.2, §5 C02",
+         "Trusts internal/model; unclean paths (empty segments, no leading slash) are checked for totality only because the two routers legitimately differ there.",
+         "property-based testing (rapid) with a set-valued reference model"),
+ "C03": ("exploration",
+         "Two generated checks on tables restricted by construction to the statement's domain: (i) the route/root that served a request is never strictly less specific than another eligible one (reference order from the statement); (ii) metamorphic: a drawn permutation of services and routes gives the same outcome for every request.",
+         "DESIGN.md §5 C03",
+         "Trusts the specificity order as restated in internal/model; ties between 10+-variable roots lie outside the generator bounds (DESIGN.md).",
+         "property-based testing (rapid): reference order + permutation metamorphic relation"),
+ "C04": ("exploration",
+         "Property-based test: for every generated request that runs a route, the handler's PathParameters() must have exactly the declared names and each value must be the URL text the reference model computes from the request path; substituting the values back reproduces the path up to the trailing slash.",
+         "DESIGN.md §5 C04",
+         "Trusts internal/model's template matcher; values bound to empty segments are only checked through the round trip.",
+         "property-based testing (rapid) with a reference binding model and round trip"),
+ "C14": ("exploration",
+         "Metamorphic property-based test: p and p + '/' are sent to the same generated container with identical method, headers and body; status, invoked route, parameter map and Allow set must be equal (Dispatch and, where roots have distinct mux patterns, ServeHTTP).",
+         "DESIGN.md §5 C14",
+         "Compares the framework with itself; net/http redirects are skipped and counted. RouterJSR311 tail wildcards are excluded as the statement says.",
+         "property-based metamorphic testing (rapid)"),
  "C18": ("exploration",
          "Differential property-based test: rapid generates route tables in the fragment both routers document and table-derived requests with near-miss mutations; each request runs on twin containers that differ only in Router(); any difference in status, invoked route, path parameters or Allow set is a violation unless it matches the recorded signature of known finding D13. Sampling, not proof: the evidence reports cases, distinct non-trivial cases, the outcome-class histogram and samples.",
          "DESIGN.md §5 C18", 
